@@ -47,6 +47,13 @@ def _inputs(case, D, P, pad=0, extra=None):
     return out
 
 
+def _args(case, datas):
+    """evaluation arguments: UTPM per input, except case['plain'] = i: input i is handed over as a plain array (a constant;
+    P is 1 then, so that all inputs sit at the same probe point)"""
+    pl = case.get('plain')
+    return [np.array(case['pts'][i][1], dtype=float) if i == pl else UTPM(d) for i, d in enumerate(datas)]
+
+
 def record(case):
     kind = case.get('rec', 'nd')
     cg = CGraph()
@@ -79,8 +86,8 @@ def _outs(case):
 def forward_reference(case, D, P):
     """w = F'(x)v mod t^D by forward mode only; data array (D,P)+outshape"""
     V = case['v']
-    Z = [UTPM(d) for d in _inputs(case, D, P, pad=D, extra=V)]
-    Z0 = [UTPM(d) for d in _inputs(case, D, P, pad=D, extra=[np.zeros_like(v) for v in V])]
+    Z = _args(case, _inputs(case, D, P, pad=D, extra=V))
+    Z0 = _args(case, _inputs(case, D, P, pad=D, extra=[np.zeros_like(v) for v in V]))
     rz = PG.run(case['prog'], Z)
     r0 = PG.run(case['prog'], Z0)
     outs = _outs(case)
@@ -132,7 +139,7 @@ def prop_pairing(case, stats):
     if any(np.iscomplexobj(w) or not np.all(np.isfinite(w)) for w in W):
         raise Inconclusive('forward reference not real/finite')
     cg, fins, regs = guard(record, case)
-    X = [UTPM(d) for d in _inputs(case, D, P)]
+    X = _args(case, _inputs(case, D, P))
     guard(cg.pushforward, X)
     ybar = [case['ybar']] + ([case['ybar2']] if case.get('out2') is not None else [])
     for o, y0, yb in zip(_outs(case), Y0, ybar):
@@ -152,6 +159,8 @@ def prop_pairing(case, stats):
         raise
     xbars = []
     for f, x in zip(fins, X):
+        if not isinstance(x, UTPM):
+            continue         # the plain (constant) input has no adjoint
         xb = f.xbar
         if not isinstance(xb, UTPM) or xb.data.shape != x.data.shape:
             raise Violation('input adjoint has type/shape %s %s' % (type(xb).__name__, getattr(getattr(xb, 'data', None), 'shape', None)))
@@ -161,7 +170,8 @@ def prop_pairing(case, stats):
             xbars.append(np.array(xb.data.real))
         else:
             xbars.append(np.array(xb.data))
-    e, det = pairing(xbars, case['v'], ybar, W, D, P, mag=case.pop('_mag', 1.0))
+    V = [v for i, v in enumerate(case['v']) if i != case.get('plain')]
+    e, det = pairing(xbars, V, ybar, W, D, P, mag=case.pop('_mag', 1.0))
     stats.err(e if np.isfinite(e) else 1.0)
     if e > TOL:
         p, d, lhs, rhs = det
@@ -211,15 +221,17 @@ SINGLE = ['un', 'kink', 'special', 'unp', 'bin', 'bcast', 'binc', 'pow', 'neg', 
 
 
 @st.composite
-def pairing_cases(draw, tier, first=None, families=None, max_len=8, min_len=1, allow_ones=False, Dforce=None):
+def pairing_cases(draw, tier, first=None, families=None, max_len=8, min_len=1, allow_ones=False, Dforce=None, n_inputs=(1, 2), Pforce=None):
     allow_bcast = not KF.is_open(OPEN_SET_BCAST)
-    pr = draw(PG.programs(n_inputs=(1, 2), max_len=max_len, min_len=min_len, families=families, out='any', K=4,
+    pr = draw(PG.programs(n_inputs=n_inputs, max_len=max_len, min_len=min_len, families=families, out='any', K=4,
                           allow_set_broadcast=allow_bcast, first=first, allow_ones=allow_ones))
     Dmax = 4 if tier == 'quick' else 5
     D = draw(st.sampled_from([3, 2, 4, 3, 2] + ([5, 5] if Dmax >= 5 else []) + [1]))
     if Dforce is not None:
         D = Dforce
     P = draw(st.sampled_from([2, 1, 2, 3]))
+    if Pforce is not None:
+        P = Pforce
     case = dict(pr)
     case['D'], case['P'] = D, P
     dense = gen.nice_floats(-1.0, 1.0)
@@ -246,6 +258,25 @@ def pairing_cases(draw, tier, first=None, families=None, max_len=8, min_len=1, a
     return case
 
 
+@st.composite
+def mixed_cases(draw, tier):
+    """two inputs, one of them evaluated as a plain array (a parameter held constant) - the pullbacks then see plain operands
+    on either side of every binary operation"""
+    fams = [f for f in PG.FAMILIES_ALL if f not in ('buf', 'set', 'rmw')]      # (a buffer typed after the plain input cannot hold polynomials)
+    case = draw(pairing_cases(tier, families=fams, max_len=6, min_len=1, n_inputs=(2, 2), Pforce=1))
+    case['out2'] = None
+    for i in draw(st.permutations([0, 1])):
+        case['plain'] = i
+        try:
+            y = PG.run(case['prog'], _args(case, _inputs(case, case['D'], 1)))[case['out']]
+        except Exception:
+            y = None
+        if isinstance(y, UTPM):
+            return case
+    case['plain'] = None
+    return case
+
+
 def _nontrivial(case):
     if case['D'] < 2:
         return False
@@ -257,6 +288,8 @@ def _nontrivial(case):
 
 def _classes(case):
     c = ['D=%d' % case['D'], 'P=%d' % case['P'], 'rec=' + case['rec']] + (['two-dependents'] if case.get('out2') is not None else [])
+    if case.get('plain') is not None:
+        c.append('plain-input=%d' % case['plain'])
     c += [f for f in PG.features(case)]
     return c
 
@@ -284,6 +317,11 @@ def buckets(tier):
     bl.append(Bucket('op:eig', (lambda: pairing_cases(tier, first='eig', families=CHEAP_TAIL, max_len=3, Dforce=1)), prop_pairing,
                      {'quick': 30, 'thorough': 300}, nontrivial=(lambda case: 'nonlinear' in PG.features(case) and case['P'] >= 2),
                      classes=_classes))
+    # (C03 quantifies over Taylor curves for EVERY input; an evaluation with a plain array among the inputs is an extension in which
+    #  several pullbacks have no branch for a plain operand and say so by raising - asserted: raises, or returns correct adjoints)
+    bl.append(Bucket('mixed-plain-input', (lambda: mixed_cases(tier)), prop_no_pullback, {'quick': 200, 'thorough': 1500},
+                     nontrivial=(lambda case: case.get('plain') is not None and _nontrivial(case)), classes=_classes,
+                     shards={'quick': 4, 'thorough': 8}, weight=3.0))
     bl.append(Bucket('compose', (lambda: pairing_cases(tier, max_len=10, min_len=2)), prop_pairing,
                      {'quick': 150, 'thorough': 2000}, nontrivial=_nontrivial, classes=_classes,
                      shards={'quick': 16, 'thorough': 16}, weight=4.0))
